@@ -66,6 +66,7 @@ def lemma_formula(eng, reg, lm, env_override=None, for_use=False):
 
 
 def lemma_vcs(reg, lm):
+    sx._fresh.reset()
     eng = sx.Engine("lemma::" + lm.name, _dummy_fn(), {}, None, reg, reg.specs)
     vcs = []
     vs, st, hyps, body = lemma_formula(eng, reg, lm)
@@ -86,8 +87,13 @@ def lemma_vcs(reg, lm):
                 ok = pos >= 0 and isinstance(hn.args[pos], _ast.Name) and hn.args[pos].id == lm.induction
                 if not ok:
                     raise sx.ContractError("circular lemma call in the proof of %s" % lm.name)
-            facts.append(sx.to_bool(eng.evc(h, hst)))
-            hst.pc.append(facts[-1])
+            has_lemma = any(isinstance(n_, _ast.Call) and isinstance(n_.func, _ast.Name) and n_.func.id in reg.lemmas
+                            for n_ in _ast.walk(hn))
+            fact = sx.to_bool(eng.evc(h, hst))
+            if not has_lemma:       # a plain formula used as a hint must itself be proved first (cut)
+                eng.emit("plainhint(%s)" % h[:50], "assert", hst, fact, note=h)
+            facts.append(fact)
+            hst.pc.append(fact)
         pre = eng.vcs
         eng.vcs = []
         for vc in pre:
@@ -141,6 +147,7 @@ def lemma_as_axiom(reg, name):
 
 def gen_function_vcs(reg, c, small_scope=None):
     fndef, imports, sha, line = extract.load(REPO, c.path, c.qualname)
+    sx._fresh.reset()
     eng = sx.Engine(c.key, fndef, imports, c, reg, reg.specs, small_scope=small_scope)
     vcs = eng.run_function()
     return eng, vcs, sha
@@ -219,6 +226,12 @@ def run_contracts(reg, contracts, lemmas, want_models=True):
                 continue
             extra = [nm for k, v in (getattr(c, "focus", None) or {}).items() if k in vc.name for nm in v]
             pruned, dropped = solve.prune_hyps(reg.specs, base_hyps, vc.goal, extra)
+            omit = {eng.requires_ids.get(rq) for rq, users in (getattr(c, "needed_by", None) or {}).items()
+                    if not any(u in vc.name for u in users)}
+            if omit - {None}:
+                kept = [h for h in pruned if h.get_id() not in omit]
+                if len(kept) != len(pruned):
+                    pruned, dropped = kept, True
             if dropped:
                 # first attempt from the relevant hypotheses only; the full set is tried if that does not succeed
                 hp = pruned + solve.spec_closure(eng, reg.specs, pruned + [vc.goal])
@@ -237,7 +250,8 @@ def run_contracts(reg, contracts, lemmas, want_models=True):
         for vc in vcs:
             hyps = list(vc.hyps)
             hyps += solve.spec_closure(eng, reg.specs, hyps + [vc.goal])
-            jobs.append((solve.to_smt2(hyps, vc.goal), Z3_MS, None, CVC5_MS))
+            zms = 1500 if getattr(lm, "prefer", None) == "cvc5" and vc.name.endswith(".step") else Z3_MS
+            jobs.append((solve.to_smt2(hyps, vc.goal), zms, None, CVC5_MS))
             meta.append((lm, vc, len(jobs) - 1))
     t0 = time.time()
     res = solve.discharge(jobs)
